@@ -394,6 +394,13 @@ func Corpus(tier string, embedded []*Schema) []*Schema {
 		cm.field("holder", 1, tMessage, bm.path)
 		fc.MessageType = append(fc.MessageType, cm.msg)
 		add(&Schema{Name: "samename", Files: []*descriptorpb.FileDescriptorProto{fa, fb, fc}})
+		// the same files, one plugin invocation per file (what `protoc a.proto; protoc b.proto` does)
+		cl := func(f *descriptorpb.FileDescriptorProto, from, to string) *descriptorpb.FileDescriptorProto {
+			c := proto.Clone(f).(*descriptorpb.FileDescriptorProto)
+			c.Options.GoPackage = proto.String(strings.Replace(c.Options.GetGoPackage(), from, to, 1))
+			return c
+		}
+		add(&Schema{Name: "perfile", Files: []*descriptorpb.FileDescriptorProto{cl(fa, "/samename/", "/perfile/"), cl(fb, "/samename/", "/perfile/"), cl(fc, "/samename/", "/perfile/")}, PerFile: true})
 	}
 
 	// ---- services (method input/output dependencies)
@@ -596,6 +603,45 @@ func Corpus(tier string, embedded []*Schema) []*Schema {
 		m.member(o, "inner", 4, tEnum, m.path+".Inner")
 		f.MessageType = append(f.MessageType, m.msg)
 		add(&Schema{Name: "enumalias", Files: []*descriptorpb.FileDescriptorProto{f}})
+	}
+
+	// ---- unusual proto file names (upper case, dashes, dots, leading digit) in one Go package, importing each other
+	{
+		pkg := "vc.filenames"
+		fa := file("vc/Bank/TxMsgs.proto", pkg, goPkg("filenames", ""))
+		am := newMsg(pkg, "Tx")
+		am.field("id", 1, tUint64, "")
+		fa.MessageType = append(fa.MessageType, am.msg)
+		fa.EnumType = append(fa.EnumType, enum("TxKind", "TX_KIND_UNSPECIFIED", 0, "TX_KIND_SEND", 1))
+		fb := file("vc/my-file.v1.proto", pkg, goPkg("filenames", ""), "vc/Bank/TxMsgs.proto")
+		bm := newMsg(pkg, "Batch")
+		bm.repeated("txs", 1, tMessage, am.path)
+		bm.field("kind", 2, tEnum, "."+pkg+".TxKind")
+		fb.MessageType = append(fb.MessageType, bm.msg)
+		fc := file("vc/9lives_UPPER.proto", pkg, goPkg("filenames", ""), "vc/my-file.v1.proto")
+		cm := newMsg(pkg, "Ledger")
+		cm.mapField("batches", 1, tString, tMessage, bm.path)
+		fc.MessageType = append(fc.MessageType, cm.msg)
+		add(&Schema{Name: "filenames", Files: []*descriptorpb.FileDescriptorProto{fa, fb, fc}})
+	}
+
+	// ---- a file that declares only enums (and one that declares nothing), imported from another Go package and from the same one
+	{
+		pkg := "vc.enumonly"
+		fe := file("vc/enumonly/kinds.proto", pkg, goPkg("enumonly", "kinds"))
+		fe.EnumType = append(fe.EnumType, enum("Kind", "KIND_UNSPECIFIED", 0, "KIND_A", 1, "KIND_B", 2), enum("Mode", "MODE_OFF", 0, "MODE_ON", 1))
+		fs := file("vc/enumonly/same.proto", pkg+".m", goPkg("enumonly", "m"))
+		fs.EnumType = append(fs.EnumType, enum("Local", "LOCAL_ZERO", 0, "LOCAL_ONE", 1))
+		fm := file("vc/enumonly/m.proto", pkg+".m", goPkg("enumonly", "m"), "vc/enumonly/kinds.proto", "vc/enumonly/same.proto")
+		m := newMsg(pkg+".m", "UsesEnums")
+		m.field("kind", 1, tEnum, "."+pkg+".Kind")
+		m.repeated("modes", 2, tEnum, "."+pkg+".Mode")
+		m.mapField("locals", 3, tInt32, tEnum, "."+pkg+".m.Local")
+		o := m.oneof("pick")
+		m.member(o, "k", 4, tEnum, "."+pkg+".Kind")
+		m.member(o, "l", 5, tEnum, "."+pkg+".m.Local")
+		fm.MessageType = append(fm.MessageType, m.msg)
+		add(&Schema{Name: "enumonly", Files: []*descriptorpb.FileDescriptorProto{fe, fs, fm}})
 	}
 
 	// ---- requests that must not produce code
